@@ -519,12 +519,25 @@ def gen_raw(rng, tier):
 MODNAMES = ["ma", "mb", "mc", "exceptions", "__builtin__", "m\u00fc"]
 DIRNAMES = ["d", "d", "my dir", "\u0434\u0438\u0440", "q\"t", "sp  x", "n\nl"]
 KINDS = ["func", "func", "func", "lambda", "method", "static", "nested", "gen", "genexpr", "rec", "exec", "deco",
-         "prop", "closure", "execsrc", "execsrc", "coro"]
+         "prop", "closure", "execsrc", "execsrc", "coro", "execreg", "execreg", "execlazy"]
+REGNAMES = ["<reg%d>", "<ipython-input-%d-0a1b>", "<attrs generated init m.C%d>", "cell://%d", "doctest-like[%d]", "<string>%d"]
 STMTS = ["return {nx}(n)", "x = {nx}(n); return x", "return ({nx}(\n        n))", "if n == 0:\n        return {nx}(n)   # c: d",
          "try:\n        return {nx}(n)\n    finally:\n        pass", "for _ in [0]:\n        return {nx}(n)",
          "return {nx}(n)   ", "return {nx}(n)  # \u00fcn\u00ef \u2713", "return   {nx}( n )", "r = [{nx}(n) for _ in [0]]; return r[0]",
          "with _Ctx():\n        return {nx}(n)"]
 EXC_MSGS = [None, "", "boom", "a: b", "l1\nl2", "\u00fcn\u00ef \u2713", "  spaced  ", "x\n", "m\n  File \"a\", line 1, in b", 42, ("a", "b")]
+
+
+def _registered(rng, kind, i, text):
+    """Module-level code that compiles `text` under a pseudo file name (no file, no loader) and registers the
+    source in linecache.cache the way attrs/dataclasses/IPython/doctest do: a plain (size, None, lines, name)
+    entry, or a one-element lazy entry."""
+    name = rng.choice(REGNAMES) % i
+    if kind == "execreg":
+        reg = "linecache.cache[%r] = (len(_t%d), None, _t%d.splitlines(True), %r)" % (name, i, i, name)
+    else:
+        reg = "linecache.cache[%r] = ((lambda t=_t%d: t),)" % (name, i)
+    return "_t%d = %r\n%s\nexec(compile(_t%d, %r, 'exec'), globals())" % (i, text, reg, i, name)
 
 
 def gen_ei(rng, tier, mods=None, depths=(1, 1, 2, 3, 3, 4, 5, 6, 8, 12), probe=False):
@@ -538,7 +551,7 @@ def gen_ei(rng, tier, mods=None, depths=(1, 1, 2, 3, 3, 4, 5, 6, 8, 12), probe=F
     deep = mods is None and not probe and rng.random() < 0.02
     if mods is None:
         mods = rng.sample(MODNAMES, rng.choice([1, 1, 2, 3]))
-    src = {m: ["import sys", "class _SrcLoader:\n    def __init__(self, text):\n        self.text = text\n    def get_source(self, name):\n        return self.text",
+    src = {m: ["import sys", "import linecache", "class _SrcLoader:\n    def __init__(self, text):\n        self.text = text\n    def get_source(self, name):\n        return self.text",
                "class _Ctx:\n    def __enter__(self):\n        return self\n    def __exit__(self, *a):\n        return False"]
            for m in mods}
     for m in mods:
@@ -586,6 +599,8 @@ def gen_ei(rng, tier, mods=None, depths=(1, 1, 2, 3, 3, 4, 5, 6, 8, 12), probe=F
             body = "def c%d(n):\n    x = n  # only via the loader\n    return _m.%s(x)\n" % (i, nx)
             code = ("_g%d = {'__name__': 'virt%d', '_m': sys.modules[__name__], '__loader__': _SrcLoader(%r)}\n"
                     "exec(compile(%r, 'memory:/virt%d.py', 'exec'), _g%d)\nc%d = _g%d['c%d']" % (i, i, body, body, i, i, i, i, i))
+        elif kind in ("execreg", "execlazy"):
+            code = _registered(rng, kind, i, "def c%d(n):\n    y = n  # registered source\n    return %s(y)\n" % (i, nx))
         elif kind == "coro":
             code = ("async def a%d(n):\n    return %s(n)\ndef c%d(n):\n    co = a%d(n)\n    try:\n        co.send(None)\n"
                     "    except StopIteration as stop:\n        return stop.value\n    finally:\n        co.close()" % (i, nx, i, i))
@@ -698,7 +713,11 @@ def gen_ei(rng, tier, mods=None, depths=(1, 1, 2, 3, 3, 4, 5, 6, 8, 12), probe=F
         ref = q if o == m else "%s.%s" % (o, q)
         body = "raise %s(%s)" % (ref, args or "")
         expect = q.split(".")[-1]
-    src[m].append("%sdef c%d(n):\n    %s" % (pre, depth, body))
+    last = "%sdef c%d(n):\n    %s\n" % (pre, depth, body)
+    if how != "probe" and rng.random() < 0.12:
+        # the raising code itself is compiled under a pseudo file name whose source is registered in linecache
+        last = _registered(rng, rng.choice(["execreg", "execlazy"]), depth, last)
+    src[m].append(last.rstrip("\n"))
     # where the modules live: plain files, or a zip archive on sys.path (source reachable only through the
     # zipimporter of the module globals); sessions rewrite files and stay on disk
     host = "file" if fixed_mods else rng.choice(["file", "file", "zip"])
@@ -1415,6 +1434,8 @@ def distribution(d, case, obs):
         inc("ei_host", case.get("host", "file"))
         if len(obs["live"]) > 1000:
             inc("ei_deeper_than_1000", "yes")
+        inc("ei_registered_pseudo_file_source", str(sum(1 for l in obs["live"] if l["raw"].strip() and
+                                                        (l["file"].startswith("<") or "://" in l["file"] or "[" in l["file"]))))
         inc("ei_loader_only_source", str(sum(1 for l in obs["live"] if l["raw"].strip() and not os.path.exists(l["file"]))))
         inc("ei_type", obs["type"] if len(obs["type"]) < 30 else "long")
         inc("ei_nosrc", str(sum(1 for l in obs["live"] if not l["raw"].strip())))
